@@ -25,7 +25,9 @@ def configs(tier, seed):
   cfgs = []
   for st in STRATEGIES:
     for s in range(n):
-      cfgs.append(dict(name='%s/%d' % (st, s), strategy=st, shard=s))
+      # the last shard of every strategy runs with a small bounded cache (refusals take part in the accounting)
+      mx = 3 if s == n - 1 else 'inf'
+      cfgs.append(dict(name='%s/%d/max%s' % (st, s, mx), strategy=st, shard=s, max=mx))
   return cfgs
 
 
@@ -129,7 +131,7 @@ def oracle(h):
 
 def run_config(cfg, res):
   from vlib import boot, cachesim
-  ns = boot.boot('carbon-cache', {'CACHE_WRITE_STRATEGY': cfg['strategy'], 'MAX_CACHE_SIZE': 'inf'})
+  ns = boot.boot('carbon-cache', {'CACHE_WRITE_STRATEGY': cfg['strategy'], 'MAX_CACHE_SIZE': cfg.get('max', 'inf'), 'USE_FLOW_CONTROL': False})
   world = cachesim.World(ns)
   r = gen.rng(cfg['seed'], 'C02', cfg['name'])
   nh = (3, 3) if cfg['tier'] == 'quick' else (8, 10)
